@@ -225,6 +225,10 @@ class Identities(SubCheck):
             t = np.array(case["t"])
             if np.abs(t).max() > 0.1 and not case.get("exc"):
                 r2, _ = _run(case, rows, shift=t)
+                if not notconv(r2).any() and abs(float(r2.mol.Etot[b]) - Etot) > 1e-6:
+                    # the translated run landed on ANOTHER SCF state (found by a background sweep: PM3 BeH2 with Pulay, -46.04 eV
+                    # instead of -57.22 eV after a pure translation): a solver-path matter recorded under C04, not a dipole law
+                    return Outcome.inconclusive("translated_run_other_scf_state", labels)
                 if not notconv(r2).any():
                     sh = tonp(r2.mol.dipole[b]) - mu
                     want = Q * t / A0
